@@ -81,3 +81,31 @@ prop("C13", "c13",
      "cases = generated plans with batches nested 0..3 deep (HCtl and MultiDispatcher controllers with library SystemData as declared data), static library-typed systems, dynamic systems and thread-local systems, set up 1..3 times in worlds where a random subset of the 32 resources pre-exists with sentinel values, with inserts/removes between rounds, then disposed; every 8th case uses AsyncDispatcher::setup. "
      "Oracles: per-system setup counter == number of setup calls, dispose counter == 1 (any depth, thread-local included); world before/after against a reference (pre-existing values untouched, default-providing accessors create the default, Option/Expect create nothing). "
      "distinct non-trivial = (plan hash, initial-world density) with a batch member or thread-local system and >=1 pre-existing resource.")
+
+prop("C05", "c05",
+     "cases = generated plans (static library-typed and dynamic systems mixed, thread-local systems, batches; few hot slots so that slots have several writers) instantiated twice: a parallel twin (dispatch / dispatch_par on a pool of 1..16 under jitter, forced overlap or a random scripted interleaving of one stage) and a twin run with dispatch_seq; after every one of 2-4 dispatches the order-sensitive world digest (a, b, hist, padding of all 32 slots) and the per-system state digests must be equal; a canary pair (a != b) seen by any system is a torn value. "
+     "The --exhaustive leg enumerates *every* linear extension of the fetch/body/release steps of one small stage (2x1, 3x1, 2+1 systems in quick; up to 4x1, 2x2, 3+1 in thorough) by token passing. "
+     "distinct non-trivial = (layout hash, overlap/script evidence) where the parallel twin followed a script exactly or >=1 overlap of unordered systems was observed in its log, and some slot has >=2 writers.",
+     quick=[shards(), shards(name="exhaustive", args=["--exhaustive"])],
+     thorough=[shards(), shards(name="exhaustive", args=["--exhaustive"])])
+
+prop("C11", "c11",
+     "cases = (stage width w in 2..16, pool size w or 16, context in {user pool, default pool, inside a batch (HCtl or MultiDispatcher), async dispatcher}, with/without a preceding stage) x 30 (quick) / 100 (thorough) dispatches: the heads of all w groups rendezvous inside run (bounded 10 s); a failed rendezvous is a violation only if the control - w plain closures spawned with pool.scope on the same (or an equivalently configured default) pool - completes, otherwise inconclusive. "
+     "distinct non-trivial = (w, pool, context, prefix) with w >= 2 and every rendezvous completed.",
+     quick=[shards(nshards=4, max_par=4)], thorough=[shards(nshards=8, max_par=4)])
+
+prop("C14", "c14",
+     "cases = generated plans x up to 6 panic positions each (any system in any group/stage, thread-local systems, systems inside batches, batch controllers, panics in the middle of fetching, two victims at once) x dispatch / dispatch_par / dispatch_seq / dispatch_seq+thread_local x sibling phase (siblings of the victim's stage parked before fetch, parked inside run, or already finished at the instant of the panic, by gates). "
+     "Oracles: catch_unwind returns Err with the payload token of a system whose injected panic really fired; transitive dependents of it (and of the batches it propagated through) have run count 0; no count above once; every resource cell probes as free; the next dispatch runs every system exactly once in a clean order. "
+     "distinct non-trivial = (plan, victim, phase, mode) where the victim fired and has a sibling in its stage or a dependent.",
+     level="fault_enumeration")
+
+prop("C15", "c15",
+     "cases = generated plans built with build_async on pools of 1..16 x random call histories (3..15 ops over dispatch / dispatch with one system parked inside run / running / wait / wait_without_tl / world / world_mut / setup). While a system is provably parked inside run, running() is polled 1..20 times and must be true, then a blocking accessor is called while a helper opens the latch only after the caller announced it is about to block. "
+     "After every accessor returns: active systems == 0 and completions == dispatches x systems; running()==false only with all completions; dispatch #n returns only when #n-1 is complete; whole-history event log: every system once per epoch, epochs never overtake; thread-local systems only between wait() marks, on the calling thread, once per wait. "
+     "distinct non-trivial = (plan, history) with >=1 poll of running() on a parked system and >=2 dispatches.")
+
+prop("C16", "c16",
+     "cases = random trees (depth <=5, fan-out <=6) assembled at run time from the real Par/Seq nodes through a boxing adapter, leaves = self-logging systems over 26 writable + 6 read-only slots, a third of the trees poisoned with one conflicting par-sibling access; conflict-free trees are set up and dispatched 2-3 times on pools 1..16 from outside and from inside the pool (also through RunNow). "
+     "Oracles: Par::with panics (debug assertions are on in this build) <=> the new child conflicts with the children already there; root reads()/writes() == multiset of the leaves'; setup reaches every leaf once; every leaf exactly once per dispatch; within a seq node all leaves of child i end before any leaf of child i+1 enters; conflicting leaves never overlap; every 100th case: k leaves under one par node rendezvous inside run (with a plain-rayon control). "
+     "distinct non-trivial = tree-shape hash with depth >=2 and both node kinds (or a completed par rendezvous).")
